@@ -201,9 +201,9 @@ pub fn check_partition(out: &mut Out, text: &str, result: &Result<Vec<Token>, Ve
     }
 }
 
-pub fn check_text(out: &mut Out, text: &str) {
-    let r = guarded(|| tokenize(None, text));
-    let imp = match &r {
+// The protocol answer for a tokenizer result (`r`: the guarded call of `tokenize` on `text`).
+pub fn tok_answer(text: &str, r: &Result<Result<Vec<Token>, Vec<crate::error::Error>>, String>) -> String {
+    match r {
         Ok(Ok(ts)) => format!("ok{}", ts.iter().map(|t| format!(" {}", tok_str(t))).collect::<String>()),
         Ok(Err(es)) => {
             // ranges: start = position of the k-th offending code point; recomputed from the symbol texts in order
@@ -228,7 +228,12 @@ pub fn check_text(out: &mut Out, text: &str) {
             format!("err{}", parts.concat())
         }
         Err(_) => "panic".to_owned(),
-    };
+    }
+}
+
+pub fn check_text(out: &mut Out, text: &str) {
+    let r = guarded(|| tokenize(None, text));
+    let imp = tok_answer(text, &r);
     out.case(&op_line(text), &imp);
     match &r {
         Ok(res) => {
